@@ -251,7 +251,85 @@ def terms_equal(a, b) -> Optional[bool]:
         return False
     if status == "unknown" and _domains_differ(a, b):
         return False
+    if status == "same" and (_equal_by_sign_cases(a, b) or _same_sign_arguments(a, b)):
+        return True
     return None
+
+
+def _same_sign_arguments(a, b) -> bool:
+    """sgn(u) against sgn(v): equal wherever both are defined when u / v is a single monomial with a positive
+    coefficient and even integer exponents throughout (a positive square), e.g. u = a / (b / c), v = (a / b) / c."""
+    if not (isinstance(a, tuple) and isinstance(b, tuple) and a[:2] == ("fn", "sgn") and b[:2] == ("fn", "sgn")):
+        return False
+    try:
+        q = A.normalize(("div", a[2], b[2]))
+    except Exception:
+        return False
+    if len(q) != 1:
+        return False
+    (mono, coeff), = q.items()
+    if coeff <= 0:
+        return False
+    for base, exp in mono:
+        e = A.nf_is_const(A.uncanon(exp))
+        if e is None or e.denominator != 1 or int(e) % 2 != 0:
+            return False
+    return True
+
+
+def _sgn_subterms(t, out):
+    if isinstance(t, tuple):
+        if t[0] == "fn" and t[1] == "sgn":
+            if t not in out:
+                out.append(t)
+        for x in t[1:]:
+            if isinstance(x, tuple):
+                _sgn_subterms(x, out)
+    return out
+
+
+def _subst_term(t, old, new):
+    if t == old:
+        return new
+    if isinstance(t, tuple) and t[0] not in ("lit", "sym", "atom"):
+        return (t[0],) + tuple(_subst_term(x, old, new) if isinstance(x, tuple) else x for x in t[1:])
+    return t
+
+
+def _equal_by_sign_cases(a, b) -> bool:
+    """The normal form does not relate sgn(t) to itself under division (1 / sgn(t) == sgn(t) where defined).  A three-way
+    sign function takes only the values -1, 0, 1: the two terms are equal wherever both are defined iff they are equal
+    under every substitution of those values for their sgn sub-terms - a case in which a side is undefined at every sample
+    point (division by the zero sign) constrains nothing."""
+    import itertools
+    import random
+    subs = _sgn_subterms(a, _sgn_subterms(b, []))
+    if not subs or len(subs) > 3:
+        return False
+    rnd = random.Random(5)
+    for combo in itertools.product((-1, 0, 1), repeat=len(subs)):
+        ta, tb = a, b
+        for st, v in zip(subs, combo):
+            ta, tb = _subst_term(ta, st, A.lit(v)), _subst_term(tb, st, A.lit(v))
+        syms = sorted(A.symbols(ta) | A.symbols(tb))
+        defined = False
+        for _ in range(24):
+            env = {s_: float(rnd.choice([1, 2, 3, 5, -2, -3, 0.5])) for s_ in syms}
+            try:
+                A.evaluate(ta, env)
+                A.evaluate(tb, env)
+                defined = True
+                break
+            except A.Undefined:
+                continue
+        if not defined:
+            continue
+        try:
+            if not A.equal_nf(ta, tb):
+                return False
+        except Exception:
+            return False
+    return True
 
 
 def _domains_differ(a, b) -> bool:
